@@ -466,3 +466,12 @@ func (n *Net) seqNow() int {
 	defer n.mu.Unlock()
 	return n.seq
 }
+
+// ResetTraffic drops all queued traffic and the traffic log and sets the delivery mode.
+func (n *Net) ResetTraffic(auto bool) {
+	n.mu.Lock()
+	n.Pending = nil
+	n.Log = nil
+	n.Auto = auto
+	n.mu.Unlock()
+}
